@@ -20,7 +20,7 @@ RULE = ('wind files (both time-header variants, 1-9 time steps) and files of the
         'reader): the bytes of the python reference encoder (= the Lean encoder, compared) are read by the Memmap '
         'reader and by the Read reader; both views (dimension lengths, data of every variable as float32 bits, time '
         'flags where both define them) are compared with the Lean reader model and with each other; non-trivial = at '
-        'least two of nz, ny*nx, nt differ from each other and from 1')
+        'least two of nz, ny*nx, nt differ from each other and from 1; height/pressure and temperature readers also opened with only rows or only columns; species names contained in earlier names')
 ASSUMPTIONS = ['wind: layout (Lean encoder), the Memmap reader against its Lean model (Wind.read: header variant from the first marker, layers from the run of data records, steps from the file size; theorem Wind.read_encode) and both readers against the encoded content; grids of at least 4 cells (records of 4, 8 or 12 bytes are indistinguishable from the closing / header records)',
                'record readers: the one3d family, height/pressure and temperature are modelled (SlabRead.lean: layer count, step, end search / last record, '
                'timerange, record positions over integer HHMM arithmetic) and proved to present the written content on regular time '
